@@ -206,11 +206,17 @@ def _worker(args):
     return V.obligations, V.violations, V.known_hit, cov
 
 
+QUICK_SKIP = {"exp.255", "exp.256", "u32popcnt", "u32cto", "u32clz", "u32ctz", "u32clo", "ilog2", "lte", "lt", "gt", "gte", "u32testw", "eqw"}
+
+
 def run(meta, V, cov, only=None):
     names = sorted(ispec.all_instrs())
     if only:
         names = [n for n in names if n in only]
     if tier() == "quick" and not only:
+        # instructions whose expansion takes minutes to explore (measured 100-700 s each: comparison
+        # chains over split limbs, bit-counting loops) are left to the thorough tier
+        names = [n for n in names if n not in QUICK_SKIP]
         rng = random.Random(seed())
         # quick tier: every instruction family, a seeded sample of the immediate forms
         fam = {}
